@@ -110,6 +110,16 @@ impl Compiler {
             | Statement::Unreachable(_) => 1,
         });
 
+        // The type declarations are at the front now, in source order. A declaration has to be
+        // checked after the declarations it mentions.
+        let num_types = statements
+            .iter()
+            .take_while(|s| matches!(s, Statement::Blob { .. } | Statement::Enum { .. }))
+            .count();
+        let rest = statements.split_off(num_types);
+        let mut statements = dependency::order_type_declarations(statements);
+        statements.extend(rest);
+
         let typechecker = typechecker::solve(&vars, &statements, &self.namespace_id_to_file)?;
 
         let ir = intermediate::compile(&typechecker, &statements);
